@@ -56,7 +56,7 @@ def rterm(t, sub, memo):
     if t.uid in memo:
         return memo[t.uid]
     if t.uid in sub:
-        r = T.const(1, sub[t.uid])
+        r = T.const(1, sub[t.uid]) if isinstance(sub[t.uid], int) else sub[t.uid]
     elif t.kind == 'arg' or not t.ops:
         r = (('s', t, 0, t.width),)
     else:
@@ -126,3 +126,36 @@ def same(a, b, limit=4096):
         return False
     tb = tree(b, limit)
     return tb is not None and ta == tb
+
+
+def args_of(bv, acc=None, seen=None):
+    if acc is None:
+        acc, seen = {}, set()
+    for p in bv:
+        if p[0] == 'r':
+            args_of((p[1],), acc, seen)
+            continue
+        if p[0] != 's':
+            continue
+        t = p[1]
+        if t.uid in seen:
+            continue
+        seen.add(t.uid)
+        if t.kind == 'arg':
+            acc[t.uid] = t
+        for o in (t.ops or ()):
+            if isinstance(o, tuple):
+                args_of(o, acc, seen)
+    return acc
+
+
+def rename_lane(bv, i, j=0):
+    """the term with every argument atom of lane i replaced by the same argument's lane j (position uniformity: an
+    element-wise operation computes lane i from lane i of its operands exactly as it computes lane j from lane j)"""
+    sub = {}
+    for t in args_of(T.canon(bv)).values():
+        if t.attrs == i:
+            sub[t.uid] = T.atom_bv(t.name, j, t.width)
+    if not sub:
+        return T.canon(bv)
+    return rebuild(bv, sub, {})
